@@ -30,7 +30,7 @@ MCNext ==
       /\ \/ \E blk \in G, cnt \in Cnts : Read(blk, cnt, F)
          \/ \E blk \in G, cnt \in Cnts : InRange(blk, cnt) /\ Write(blk, cnt, Fresh(Span(blk, cnt)), F)
          \/ \E off \in G, n \in ByteLens : off + n <= NG /\ WriteByte(off, n, Fresh(n), F)
-         \/ \E blk \in G, n \in 1..(D + 1), zok \in (IF ZeroFail THEN BOOLEAN ELSE {TRUE}) : Zeroout(blk, n, zok, F)
+         \/ \E blk \in G, n \in 1..(D + 1), zok \in (IF ZeroFail THEN BOOLEAN ELSE {TRUE}) : Zeroout(blk, n, zok, NewTag, F)
          \/ Flush(F)
          \/ Close(F)
          \/ \E nbs \in BlkSizes : nbs # bs /\ SetBlksize(nbs, F)
@@ -39,10 +39,10 @@ MCNext ==
          \/ (F = {} /\ \E c \in Cfgs : Open(c[1], c[2], c[3]))
 MCSpec == MCInit /\ [][MCNext]_mcvars
 
-\* ---- VIEW: canonical renaming of tags per granule (0 and UNK are fixed points)
+\* ---- VIEW: canonical renaming of tags per granule (UNK is a fixed point; zeroout writes a fresh value here)
 Cov(g) == SelectSeq([i \in 1..K |-> i], LAMBDA i : slot[i].use /\ g \in SlotGr(slot[i]))
 CopySeq(g) == <<logical[g], dev[g]>> \o [k \in 1..Len(Cov(g)) |-> slot[Cov(g)[k]].data[g - slot[Cov(g)[k]].blk * bs + 1]]
-Ren(g, v) == IF v = 0 \/ v = UNK THEN v
+Ren(g, v) == IF v = UNK THEN v
              ELSE LET q == CopySeq(g) IN CHOOSE k \in 1..Len(q) : q[k] = v /\ \A m \in 1..(k - 1) : q[m] # v
 \* named configuration sets for the cfg files (cfg syntax has no tuples)
 CfgPlain == {<<FALSE, FALSE, FALSE>>}
@@ -55,5 +55,5 @@ MCView == <<[g \in G |-> <<Ren(g, logical[g]), Ren(g, dev[g])>>],
             [i \in 1..K |-> [blk |-> slot[i].blk, use |-> slot[i].use, dirty |-> slot[i].dirty, werr |-> slot[i].werr,
                              data |-> [j \in 1..Len(slot[i].data) |-> Ren(slot[i].blk * bs + j - 1, slot[i].data[j])]]],
             lru, bs, cfg, open, unrep, faults,
-            <<res.op, res.ret, res.rok>>>>
+            <<res.rok, res.op \in {"flush", "close"} /\ res.ret = 0>>>>
 =============================================================================
